@@ -14,3 +14,13 @@ Fixpoint find_pseudo (pm : list (N * N)) (u : N) : N :=
 
 Definition initial_glyph (cmap_gid : N) (pm : list (N * N)) (u : N) : N := if cmap_gid =? 0 then find_pseudo pm u else cmap_gid.
 Definition char_supported (cmap_gid : N) (pm : list (N * N)) (u : N) : bool := negb (initial_glyph cmap_gid pm u =? 0).
+
+(* the text reader (process_utf_data in src/Segment.cpp) over the decoded characters: one slot per character up to the first NUL, each
+   with its initial glyph *)
+Fixpoint upto_nul (us : list N) : list N :=
+  match us with
+  | [] => []
+  | u :: r => if u =? 0 then [] else u :: upto_nul r
+  end.
+Definition text_glyphs (cmapf : N -> N) (pm : list (N * N)) (us : list N) : list N :=
+  map (fun u => initial_glyph (cmapf u) pm u) (upto_nul us).
